@@ -60,6 +60,7 @@ var baseTypes = []reflect.Type{
 	reflect.TypeOf((*ucfg.Config)(nil)), reflect.TypeOf(ucfg.Config{}), reflect.TypeOf(regexp.Regexp{}), reflect.TypeOf(Init{}), reflect.TypeOf(Val{}),
 	reflect.TypeOf(make(chan int)), reflect.TypeOf(func() {}), reflect.TypeOf(complex64(0)), reflect.TypeOf(int64(0)), reflect.TypeOf(uint64(0)),
 	reflect.TypeOf(NamedBool(false)), reflect.TypeOf(NamedFloat(0)), reflect.TypeOf(NamedUint(0)), reflect.TypeOf(NamedDur(0)),
+	reflect.TypeOf((*ucfg.Initializer)(nil)).Elem(), reflect.TypeOf((*ucfg.Validator)(nil)).Elem(), reflect.TypeOf((*error)(nil)).Elem(),
 }
 
 var keyTypes = []reflect.Type{reflect.TypeOf(""), reflect.TypeOf(""), reflect.TypeOf(KeyS("")), reflect.TypeOf(int(0)), reflect.TypeOf((*interface{})(nil)).Elem()}
@@ -359,4 +360,115 @@ func recursive(r *sim.R) {
 	default:
 		call(r, "Unpack", func() { var m map[string]*selfRef; c.Unpack(&m, opts...) })
 	}
+}
+
+type recList []recList
+
+type recSlices struct {
+	A []recSlices
+	V int
+}
+
+// oddities: legal-but-odd arguments reported from reading the code (by the sub-agents of the
+// seeded-change waves and by review), each a one-call scenario. The table grows; the monitors judge.
+func oddities(r *sim.R) {
+	t := r.T
+	opts := []ucfg.Option{ucfg.PathSep("."), ucfg.VarExp}
+	r.Fault("odd but legal argument (table)")
+	switch k := t.Choose(7, "oddity"); k {
+	case 0:
+		// a pre-filled target that points to itself
+		n := &selfRef{V: 1}
+		n.Next = n
+		if t.Bool("longer-cycle") {
+			n.Next = &selfRef{V: 2, Next: n}
+		}
+		c, _ := ucfg.NewFrom(map[string]interface{}{"v": uint64(2)}, opts...)
+		r.Tracef("Unpack({v: 2}) into a struct whose Next pointer leads back to itself")
+		call(r, "Unpack", func() { c.Unpack(n, opts...) })
+		call(r, "Unpack", func() { c.Unpack(&struct{ P *selfRef }{P: n}, opts...) })
+	case 1:
+		// fields of non-empty interface types, nil
+		c, _ := ucfg.NewFrom(map[string]interface{}{"a": uint64(1)}, opts...)
+		r.Tracef("Unpack into fields of interface types Initializer / Validator / error")
+		call(r, "Unpack", func() {
+			var to struct {
+				X ucfg.Initializer
+				Y ucfg.Validator
+				Z error
+				A int
+			}
+			c.Unpack(&to, opts...)
+		})
+	case 2:
+		// an inline interface{} holding a slice (or a map, or a struct), config a list or a dictionary
+		in := []interface{}{[]interface{}{uint64(1), uint64(2)}, map[string]interface{}{"a": uint64(1)}}[t.Choose(2, "inline-config")]
+		held := []interface{}{[]int{7}, map[string]int{"z": 1}, struct{ A int }{3}, &struct{ A int }{3}, 5}[t.Choose(5, "inline-held")]
+		c, err := ucfg.NewFrom(in, opts...)
+		if err != nil {
+			return
+		}
+		r.Tracef("Unpack(%v) into struct{ X interface{} `config:\",inline\"` }{X: %T}", in, held)
+		call(r, "Unpack", func() {
+			to := struct {
+				X interface{} `config:",inline"`
+			}{X: held}
+			c.Unpack(&to, opts...)
+		})
+	case 3:
+		// a config attached below itself, or below one of its own descendants
+		c, _ := ucfg.NewFrom(map[string]interface{}{"a": map[string]interface{}{"b": map[string]interface{}{"x": uint64(1)}}}, opts...)
+		var target *ucfg.Config = c
+		if t.Bool("attach-to-descendant") {
+			target, _ = c.Child("a.b", -1, opts...)
+		}
+		r.Tracef("SetChild of a config below itself / its own descendant, then every read")
+		call(r, "SetChild", func() { target.SetChild("self", -1, c, opts...) })
+		call(r, "Path", func() { _ = c.Path(".") })
+		call(r, "Path", func() { _ = target.Path(".") })
+		call(r, "FlattenedKeys", func() { c.FlattenedKeys(opts...) })
+		call(r, "Unpack", func() { var m map[string]interface{}; c.Unpack(&m, opts...) })
+		call(r, "String", func() { c.String("a.b.x", -1, opts...) })
+		call(r, "Merge", func() { ucfg.New().Merge(c, opts...) })
+	case 4:
+		// a list that refers to itself, unpacked into recursive list types
+		in := []interface{}{
+			map[string]interface{}{"a": []interface{}{"${a}"}},
+			map[string]interface{}{"a": []interface{}{map[string]interface{}{"a": "${a}"}}},
+			map[string]interface{}{"a": "${b}", "b": []interface{}{"${a}"}},
+			map[string]interface{}{"a": "x"},
+			map[string]interface{}{"a": "${b}", "b": []interface{}{"x", "y"}},
+		}[t.Choose(5, "list-cycle")]
+		c, err := ucfg.NewFrom(in, opts...)
+		if err != nil {
+			return
+		}
+		r.Tracef("Unpack(%v) into recursive list types", in)
+		call(r, "Unpack", func() { var to struct{ A recList }; c.Unpack(&to, opts...) })
+		call(r, "Unpack", func() { var to recSlices; c.Unpack(&to, opts...) })
+		call(r, "Unpack", func() { var to struct{ A [][][]string }; c.Unpack(&to, opts...) })
+	case 5:
+		// a Config held by value
+		c, _ := ucfg.NewFrom(map[string]interface{}{"a": uint64(1), "c": map[string]interface{}{"x": uint64(1)}}, opts...)
+		r.Tracef("Unpack into struct{ C ucfg.Config }")
+		call(r, "Unpack", func() {
+			var to struct {
+				A int
+				C ucfg.Config
+			}
+			c.Unpack(&to, opts...)
+		})
+	default:
+		// empty names and empty path segments
+		c := ucfg.New()
+		for _, n := range []string{"", ".", "a..b", ".a", "a.", "..", "a.0.", "0"} {
+			n := n
+			call(r, "SetInt", func() { c.SetInt(n, -1, 1, opts...) })
+			call(r, "Int", func() { c.Int(n, -1, opts...) })
+			call(r, "Remove", func() { c.Remove(n, -1, opts...) })
+		}
+		call(r, "FlattenedKeys", func() { c.FlattenedKeys(opts...) })
+		call(r, "Unpack", func() { var m map[string]interface{}; c.Unpack(&m, opts...) })
+	}
+	r.StateOps += 2
 }
